@@ -240,6 +240,12 @@ fn c30_texts() -> Vec<String> {
         "// é\n%start Sé\n".into(),
         "%start S\n%skip A, B\n%on A %enter X\n%scanner X { %on B %pop }\n%%\nS: A B;\nA: 'a';\nB: <X>'b';\n".into(),
         "%start S\n%%\nS: 'a';\né".into(),
+        // names that are referenced but never defined: user types written as paths, scanner states
+        // without a %scanner block, non-terminals without productions, undefined names in declarations
+        "%start S\n%%\nS: N : demo::Number A : other::T;\nN: /[0-9]+/ : demo::Number;\nA: 'a'@m : U;\n".into(),
+        "%start S\n%on T %enter Esc\n%skip Undef\n%nt_type Nowhere = x::Y\n%t_type z::T\n%%\nS: T <Esc>'x' <Esc, Other>\"y\" Missing;\nT: 't';\n".into(),
+        "%start S\n%user_type U = a::B\n%scanner X { %on Q %push Y %on Q %pop }\n%%\nS: 'a' : U Q : V;\nQ: <X, Z>'q';\n".into(),
+        "%start Missing\n%%\nS: S2;\n".into(),
     ]);
     v
 }
@@ -369,7 +375,7 @@ fn run_c30(tier: Tier, replay: Option<&str>) -> i32 {
         &acc,
         Finish {
             level: "exploration",
-            rule: "documents: 6 valid grammars using every PAR feature, and empty / newline-only / CRLF / lone-CR / 2- and 4-byte characters / no trailing newline / syntactically invalid / non-ASCII identifiers texts (plus repository formatter inputs); for every document every position (line 0..L+1, character 0..width+2 in UTF-16 units, plus u32::MAX corners) x {hover, definition, prepareRename, rename, codeAction with the server's own and with synthetic diagnostics} plus documentSymbol and formatting, through the real handlers of a real Server (hook H3); oracle: every request returns, no panic, the process stays alive; pos_to_offset is <= the text length and on a character boundary for every position.".into(),
+            rule: "documents: 6 valid grammars using every PAR feature, and empty / newline-only / CRLF / lone-CR / 2- and 4-byte characters / no trailing newline / syntactically invalid / non-ASCII identifiers texts, and 4 texts in which user types, scanner states and non-terminals are referenced but never defined (plus repository formatter inputs); for every document every position (line 0..L+1, character 0..width+2 in UTF-16 units, plus u32::MAX corners) x {hover, definition, prepareRename, rename, codeAction with the server's own and with synthetic diagnostics} plus documentSymbol and formatting, through the real handlers of a real Server (hook H3); oracle: every request returns, no panic, the process stays alive; pos_to_offset is <= the text length and on a character boundary for every position.".into(),
             exhaustive_note: "all listed documents, positions and requests unless capped=true".into(),
             assumptions: vec!["background analyses are queued by the gate (hook H4) and not run in this check".into()],
             extra: json!({}),
